@@ -23,6 +23,20 @@ def join_rule(prog, rep, ctx):
     ps = paths(prog, ctx, f)
     rep.analysed(f, ctx, len(ps))
     where = f"{ctx}.join"
+    # a join that works on a copy of its own counters (merged = array('i', self._bins) ... self._bins = merged) is the same join on
+    # the counters themselves: where a returning path ends by installing that copy, the copy is read as the field
+    from ..common import alias_view
+    viewed = []
+    for p in ps:
+        own = ("f", SELF, "_bins", 0)
+        copies = {strip_epochs(e.value) for e in p.events if e.kind == "bind" and strip_epochs(e.value)[0] == "newb" and strip_epochs(e.value)[1] == "array"
+                  and len(strip_epochs(e.value)[3]) == 2 and strip_epochs(e.value)[3] == (C("i"), own)}
+        inst = [strip_epochs(e.value) for e in p.events if e.kind == "setfield" and e.base == SELF and e.name == "_bins"]
+        if len(copies) == 1 and (p.exit[0] != "return" or (inst and inst[-1] in copies)):
+            viewed.append(alias_view(p, {next(iter(copies)): own}))
+        else:
+            viewed.append(p)
+    ps = viewed
     stores = [(p, e) for p in ps for e in p.events if e.kind == "setelem" and outer_field(e.cont) == "_bins"]
     if not stores:
         rep.bad("C12.join-cells", where, "no cell store", "join stores nothing into the receiver's cells", f.where())
